@@ -247,6 +247,13 @@ pub fn run_case(case: &Case) -> Outcome {
                     let rows = bodies::rows_body(e, &case.program, n);
                     rows[bodies::row_index(rows.len(), *i)].clone()
                 });
+                // the reference is dereferenced only under the same constraint as `Lookup` (see
+                // there): the value the documented algorithm points at must still be held
+                let guard_key = NKey::IRef(want.clone());
+                if !(case.lookup_stale_owner || real::with_tracker(|t| t.iref_pointee_alive(&guard_key))) {
+                    lookups_skipped += 1;
+                    continue;
+                }
                 let got = r.lookup(&db).clone();
                 calls += 1;
                 log.push(got.val as u8);
@@ -376,18 +383,17 @@ pub fn run_case(case: &Case) -> Outcome {
                         owner,
                     } => {
                         let alive = real::with_tracker(|t| t.interned_alive(key)) == Some(*gen);
-                        // generator constraint of known finding C03/intern_ref-stale-owner: a stored
-                        // intern_ref reference is only read while its owner still holds the value it
-                        // pointed into
+                        // Generator constraint of the two known intern_ref findings (two-owners and
+                        // stale-owner): a stored intern_ref reference is only read while the value
+                        // that the DOCUMENTED algorithm makes it point into is still held by its
+                        // owner (the model replays that algorithm: new node -> caller's value;
+                        // existing node -> re-pointed unless already verified in this epoch). A
+                        // pointer that the real code failed to re-point although the algorithm
+                        // says it must is therefore still detected.
                         let owner_ok = match owner {
                             _ if case.lookup_stale_owner => true,
                             None => true,
-                            Some((n, count)) => real::with_tracker(|t| {
-                                t.recs
-                                    .get(&NKey::Rows(*n))
-                                    .map(|r| r.must_cached && r.change_count == *count)
-                                    .unwrap_or(false)
-                            }),
+                            Some(_) => real::with_tracker(|t| t.iref_pointee_alive(key)),
                         };
                         if !(alive && owner_ok) {
                             lookups_skipped += 1;
